@@ -543,7 +543,7 @@ func runC01(r *engine.Run) {
 		}
 	})
 
-	spA := (&engine.Space{}).Dim("dlsettings", 256).Dim("rxdelay", 16).Dim("cflist{absent,channels,masks,all-unused channels,one channel,six masks}", 6)
+	spA := (&engine.Space{}).Dim("dlsettings", 256).Dim("rxdelay", 16).Dim("cflist{absent,channels,masks,all-unused channels,one channel,six masks,channels at the ends of the code range}", 7)
 	jaRoundTrip := func(c *engine.Case, class string, j jaValue, lib *lorawan.JoinAcceptPayload, wire []byte, expectDecoded *lorawan.JoinAcceptPayload) {
 		c.Eval()
 		b, err := lib.MarshalBinary()
